@@ -374,16 +374,21 @@ class ASTRewriter(ast.NodeTransformer):
                 and isinstance(_sval.slice, ast.Tuple)
                 and isinstance(arg.slice, ast.Constant)
             ):
-                return [
-                    ast.Subscript(
-                        value=ast.Subscript(
-                            value=ast.Name(id=arg.value.id, ctx=ast.Load()),
-                            slice=ast.Constant(value=arg.slice.value, kind=None),
-                        ),
-                        slice=ast.Constant(value=i, kind=None),
-                    )
-                    for i in range(len(_sval.slice.elts))
-                ]
+                # the elements of the row that is indexed (a matrix need not be square)
+                _row = _sval.slice.elts[arg.slice.value]
+                if isinstance(_row, ast.Subscript):
+                    _row = _row.slice
+                if isinstance(_row, ast.Tuple):
+                    return [
+                        ast.Subscript(
+                            value=ast.Subscript(
+                                value=ast.Name(id=arg.value.id, ctx=ast.Load()),
+                                slice=ast.Constant(value=arg.slice.value, kind=None),
+                            ),
+                            slice=ast.Constant(value=i, kind=None),
+                        )
+                        for i in range(len(_row.elts))
+                    ]
         elif isinstance(arg, ast.Name):
             # If it's a name, is in env and is a Tuple, return elements
             if (
